@@ -50,6 +50,10 @@ func (x *Engine) dispatch(fr *Frame, st *State, cc *ssa.CallCommon, args []Val, 
 		if fs := x.db.Funcs[key]; fs != nil {
 			return x.applyContract(fr, st, fs, sig, args, p, key)
 		}
+		if cc.Method.Name() == "Error" && cc.Method.Pkg() == nil {
+			x.abstracted("error.Error(): opaque string, no effect")
+			return resultVal(sig, x.freshResults(st, sig, "es"))
+		}
 		if strings.HasPrefix(key, "reflect.") {
 			x.abstracted("reflect method: opaque result, no effect")
 			return resultVal(sig, x.freshResults(st, sig, "rf"))
@@ -249,7 +253,10 @@ func (x *Engine) finishFrame(fr *Frame) {
 	rec := x.get(ps, recKey)
 	// not recovered: keeps propagating
 	if rec != "true" {
-		fr.panics = append(fr.panics, exit{cond: x.name("pp", "Bool", andTerms(ps.live, notTerm(rec))), st: ps.clone(), origin: strings.Join(origins, "|")})
+		// keep one exit per original source so that each has its own obligation name
+		for k, c := range conds {
+			fr.panics = append(fr.panics, exit{cond: x.name("pp", "Bool", andTerms(c, ps.live, notTerm(rec))), st: ps.clone(), origin: origins[k]})
+		}
 	}
 	if rec != "false" {
 		if fr.fn.Recover != nil {
